@@ -1,0 +1,414 @@
+//! Verification harness for the ledger properties C01..C04 (test-only; see /verif).
+//!
+//! A thin extension of `app::verif`: every script line is delegated to
+//! `verif::Harness::run_line`, except the ops below which need more detailed observations than the
+//! base harness prints:
+//!
+//! * `exec <id>`       per-transaction execution inside a manual block (`begin` .. `end`), like the
+//!   base op, but additionally prints every `tx.fees` event the real code recorded (one `fee` line
+//!   per event) and every deposit the transaction cached (one `dep` line per deposit), plus the
+//!   number of `tx.deposit` ABCI events returned.
+//! * `txr <id> <signer> <delta> <action> [; <action>]...`  like `tx`, but the nonce is the signer's
+//!   current nonce in the working state plus `delta` (`+0`, `+1`, `-1`, ...; clamped to u32).
+//!   Prints `nonce <id> <n>` and then whatever `tx <id> <signer> <n> ...` prints.
+//! * `deposits`        all deposits currently cached in the working state, in full.
+//! * `bdeposits`       all deposits stored for the last committed block, in full.
+//!
+//! Run with:
+//! `cargo test --offline -p astria-sequencer --features verif --lib app::verif_ledger::drive -- --exact`
+#![allow(
+    clippy::pedantic,
+    clippy::arithmetic_side_effects,
+    clippy::too_many_lines,
+    dead_code
+)]
+
+use std::{
+    collections::HashMap,
+    panic::AssertUnwindSafe,
+    sync::Arc,
+};
+
+use astria_core::{
+    primitive::v1::RollupId,
+    sequencerblock::v1::block::Deposit,
+};
+use futures::FutureExt as _;
+use tendermint::{
+    abci::{
+        types::ExecTxResult,
+        Code,
+        Event,
+    },
+    Hash,
+};
+
+use super::{
+    verif::{
+        block_hash,
+        classify,
+        debug_enabled,
+        error_chain,
+        name_sort_key,
+        working_state_fingerprint,
+        Harness,
+        PResult,
+        FEE_KINDS,
+    },
+    ExecutedTransaction,
+};
+use crate::{
+    accounts::StateReadExt as _,
+    bridge::StateReadExt as _,
+    checked_actions::CheckedActionExecutionError,
+    checked_transaction::{
+        CheckedTransaction,
+        CheckedTransactionExecutionError,
+    },
+};
+
+/// The rollup ids whose stored deposits `bdeposits` looks up.
+const ROLLUP_TABLE: u8 = 8;
+
+/// Full protobuf names (as recorded in `tx.fees` events) end in these type names, in the order of
+/// `FEE_KINDS`.
+const FEE_TYPE_NAMES: [&str; 18] = [
+    "Transfer",
+    "RollupDataSubmission",
+    "Ics20Withdrawal",
+    "InitBridgeAccount",
+    "BridgeLock",
+    "BridgeUnlock",
+    "BridgeTransfer",
+    "BridgeSudoChange",
+    "IbcRelay",
+    "ValidatorUpdate",
+    "FeeAssetChange",
+    "FeeChange",
+    "IbcRelayerChange",
+    "SudoAddressChange",
+    "IbcSudoChange",
+    "RecoverIbcClient",
+    "CurrencyPairsChange",
+    "MarketsChange",
+];
+
+fn fee_kind(full_name: &str) -> String {
+    let type_name = full_name.rsplit('.').next().unwrap_or(full_name);
+    FEE_TYPE_NAMES
+        .iter()
+        .position(|candidate| *candidate == type_name)
+        .map_or_else(|| full_name.to_string(), |index| FEE_KINDS[index].to_string())
+}
+
+fn attribute(event: &Event, key: &str) -> String {
+    event
+        .attributes
+        .iter()
+        .find(|attribute| attribute.key_bytes() == key.as_bytes())
+        .map(|attribute| String::from_utf8_lossy(attribute.value_bytes()).into_owned())
+        .unwrap_or_else(|| "?".to_string())
+}
+
+/// A printable token for free-form strings (destination chain addresses).
+fn token(text: &str) -> String {
+    if text.is_empty() {
+        return "-".to_string();
+    }
+    text.chars()
+        .map(|c| if c.is_whitespace() { '_' } else { c })
+        .collect()
+}
+
+fn show_deposit(harness: &Harness, deposit: &Deposit) -> String {
+    let names = &harness.names;
+    let source_tx = match harness.tx_names.get(&deposit.source_transaction_id.get()) {
+        Some(name) => name.clone(),
+        None => hex::encode(deposit.source_transaction_id.get())[..8].to_string(),
+    };
+    format!(
+        "rollup={} bridge={} asset={} amount={} dest={} srctx={} idx={}",
+        names.show_rollup(&deposit.rollup_id),
+        names.show_address(&deposit.bridge_address.bytes()),
+        names.show_asset(&deposit.asset.to_ibc_prefixed()),
+        deposit.amount,
+        token(&deposit.destination_chain_address),
+        source_tx,
+        deposit.source_action_index,
+    )
+}
+
+/// Rollup ids in canonical (name) order.
+fn sorted_rollups(harness: &Harness, deposits: &HashMap<RollupId, Vec<Deposit>>) -> Vec<RollupId> {
+    let mut rollups: Vec<RollupId> = deposits.keys().copied().collect();
+    rollups.sort_by_key(|rollup_id| name_sort_key(&harness.names.show_rollup(rollup_id)));
+    rollups
+}
+
+async fn op_exec(harness: &mut Harness, args: &[&str]) -> PResult<()> {
+    let [id] = args else {
+        return Err("usage: exec <id>".to_string());
+    };
+    let chain = harness
+        .chain
+        .as_mut()
+        .ok_or_else(|| "no chain (missing `genesis`)".to_string())?;
+    if chain.manual.is_none() {
+        harness.out.push_str(&format!("exec {id} err=noblock\n"));
+        return Ok(());
+    }
+    let Some(bytes) = harness.txs.get(*id) else {
+        harness.out.push_str(&format!("exec {id} unknown\n"));
+        return Ok(());
+    };
+    let tx = match CheckedTransaction::new(bytes.clone(), chain.app.state()).await {
+        Ok(tx) => Arc::new(tx),
+        Err(error) => {
+            let class = classify("exec construct", &error_chain(&error));
+            harness
+                .out
+                .push_str(&format!("exec {id} constructerr={class}\n"));
+            return Ok(());
+        }
+    };
+    let before = working_state_fingerprint(&chain.app).await;
+    let deposits_before = chain.app.state().get_cached_block_deposits();
+    match chain.app.execute_transaction(tx.clone()).await {
+        Ok(events) => {
+            let deposits_after = chain.app.state().get_cached_block_deposits();
+            chain
+                .manual
+                .as_mut()
+                .unwrap()
+                .executed
+                .push(ExecutedTransaction {
+                    tx,
+                    exec_result: ExecTxResult {
+                        events: events.clone(),
+                        ..Default::default()
+                    },
+                });
+            let fee_events: Vec<&Event> = events
+                .iter()
+                .filter(|event| event.kind == "tx.fees")
+                .collect();
+            let deposit_event_count = events
+                .iter()
+                .filter(|event| event.kind == "tx.deposit")
+                .count();
+            let mut lines = vec![format!(
+                "exec {id} ok fees={} depevents={deposit_event_count}",
+                fee_events.len()
+            )];
+            for event in fee_events {
+                let asset = attribute(event, "asset");
+                let asset = match asset.parse::<astria_core::primitive::v1::asset::Denom>() {
+                    Ok(denom) => harness.names.show_asset(&denom.to_ibc_prefixed()),
+                    Err(_) => asset,
+                };
+                lines.push(format!(
+                    "fee {id} pos={} kind={} asset={asset} amount={}",
+                    attribute(event, "positionInTransaction"),
+                    fee_kind(&attribute(event, "actionName")),
+                    attribute(event, "feeAmount"),
+                ));
+            }
+            // Deposits cached by this transaction: per rollup, everything beyond what was cached
+            // before.
+            for rollup_id in sorted_rollups(harness, &deposits_after) {
+                let old_count = deposits_before.get(&rollup_id).map_or(0, Vec::len);
+                for deposit in deposits_after[&rollup_id].iter().skip(old_count) {
+                    lines.push(format!("dep {id} {}", show_deposit(harness, deposit)));
+                }
+            }
+            for line in lines {
+                harness.out.push_str(&line);
+                harness.out.push('\n');
+            }
+        }
+        Err(error) => {
+            let text = error_chain(&error);
+            let class = classify("exec", &text);
+            if matches!(
+                error,
+                CheckedTransactionExecutionError::CheckedAction(
+                    CheckedActionExecutionError::NonFatalExecution { .. }
+                )
+            ) {
+                chain
+                    .manual
+                    .as_mut()
+                    .unwrap()
+                    .executed
+                    .push(ExecutedTransaction {
+                        tx,
+                        exec_result: ExecTxResult {
+                            code: Code::Err(
+                                astria_core::protocol::abci::AbciErrorCode::TRANSACTION_FAILED_EXECUTION
+                                    .value(),
+                            ),
+                            log: text,
+                            info: "transaction failed execution".to_string(),
+                            ..ExecTxResult::default()
+                        },
+                    });
+            }
+            let after = working_state_fingerprint(&chain.app).await;
+            let deposits_after = chain.app.state().get_cached_block_deposits();
+            harness.out.push_str(&format!(
+                "exec {id} err={class} unchanged={}\n",
+                before == after && deposits_before == deposits_after
+            ));
+        }
+    }
+    Ok(())
+}
+
+async fn op_txr(harness: &mut Harness, args: &[&str]) -> PResult<()> {
+    let [id, signer, delta, action_tokens @ ..] = args else {
+        return Err("usage: txr <id> <signer> <delta> <action> [; <action>]...".to_string());
+    };
+    let delta: i64 = delta
+        .parse()
+        .map_err(|_| format!("bad nonce delta `{delta}`"))?;
+    let signer_index = harness.names.account_index(signer)?;
+    let address = harness.names.addresses[signer_index];
+    let chain = harness
+        .chain
+        .as_ref()
+        .ok_or_else(|| "no chain (missing `genesis`)".to_string())?;
+    let current = chain
+        .app
+        .state()
+        .get_account_nonce(&address)
+        .await
+        .map_err(|error| format!("{error:#}"))?;
+    let nonce = (i64::from(current) + delta).clamp(0, i64::from(u32::MAX));
+    harness.emit(format!("nonce {id} {nonce}"));
+    let line = format!("tx {id} {signer} {nonce} {}", action_tokens.join(" "));
+    harness.run_line(&line).await;
+    Ok(())
+}
+
+async fn op_deposits(harness: &mut Harness) -> PResult<()> {
+    let chain = harness
+        .chain
+        .as_ref()
+        .ok_or_else(|| "no chain (missing `genesis`)".to_string())?;
+    let deposits = chain.app.state().get_cached_block_deposits();
+    let total: usize = deposits.values().map(Vec::len).sum();
+    let mut lines = vec![format!("deposits n={total}")];
+    for rollup_id in sorted_rollups(harness, &deposits) {
+        for deposit in &deposits[&rollup_id] {
+            lines.push(format!("cdep {}", show_deposit(harness, deposit)));
+        }
+    }
+    for line in lines {
+        harness.out.push_str(&line);
+        harness.out.push('\n');
+    }
+    Ok(())
+}
+
+async fn op_bdeposits(harness: &mut Harness) -> PResult<()> {
+    let chain = harness
+        .chain
+        .as_ref()
+        .ok_or_else(|| "no chain (missing `genesis`)".to_string())?;
+    let height = chain.stored_height().await;
+    let Hash::Sha256(hash) = block_hash(height) else {
+        return Err("no block hash".to_string());
+    };
+    let mut lines = Vec::new();
+    for index in 0..ROLLUP_TABLE {
+        let rollup_id = RollupId::new([index; 32]);
+        let deposits = chain
+            .app
+            .state()
+            .get_deposits(&hash, &rollup_id)
+            .await
+            .map_err(|error| format!("{error:#}"))?;
+        for deposit in &deposits {
+            lines.push(format!("bdep {}", show_deposit(harness, deposit)));
+        }
+    }
+    harness
+        .out
+        .push_str(&format!("bdeposits height={height} n={}\n", lines.len()));
+    for line in lines {
+        harness.out.push_str(&line);
+        harness.out.push('\n');
+    }
+    Ok(())
+}
+
+async fn run_own_op(harness: &mut Harness, op: &str, args: &[&str]) -> PResult<()> {
+    match op {
+        "exec" => op_exec(harness, args).await,
+        "txr" => op_txr(harness, args).await,
+        "deposits" => op_deposits(harness).await,
+        "bdeposits" => op_bdeposits(harness).await,
+        other => Err(format!("unknown op `{other}`")),
+    }
+}
+
+async fn run_line(harness: &mut Harness, line: &str) {
+    let tokens: Vec<&str> = line.split_whitespace().collect();
+    let Some((&op, args)) = tokens.split_first() else {
+        return;
+    };
+    if !matches!(op, "exec" | "txr" | "deposits" | "bdeposits") {
+        harness.run_line(line).await;
+        return;
+    }
+    let mark = harness.out.len();
+    let result = AssertUnwindSafe(run_own_op(harness, op, args))
+        .catch_unwind()
+        .await;
+    let subject = match op {
+        "exec" | "txr" => args.first().map(|id| format!(" {id}")).unwrap_or_default(),
+        _ => String::new(),
+    };
+    match result {
+        Ok(Ok(())) => {}
+        Ok(Err(message)) => {
+            if debug_enabled() {
+                eprintln!("[verif] parse error in `{line}`: {message}");
+            }
+            harness.out.truncate(mark);
+            harness.emit(format!("{op}{subject} parseerr"));
+        }
+        Err(_) => {
+            harness.out.truncate(mark);
+            harness.emit(format!("{op}{subject} panic"));
+            if let Some(chain) = harness.chain.as_mut() {
+                let _ = std::panic::catch_unwind(AssertUnwindSafe(|| chain.reset_round()));
+            }
+        }
+    }
+}
+
+#[tokio::test]
+async fn drive() {
+    let Ok(input_path) = std::env::var("VERIF_IN") else {
+        return;
+    };
+    let script = std::fs::read_to_string(&input_path).expect("VERIF_IN should be readable");
+    if debug_enabled() {
+        std::panic::set_hook(Box::new(|info| eprintln!("[verif] panic: {info}")));
+    } else {
+        std::panic::set_hook(Box::new(|_| {}));
+    }
+    let mut harness = Harness::new();
+    for line in script.lines() {
+        run_line(&mut harness, line).await;
+    }
+    harness.chain = None;
+    let _ = std::panic::take_hook();
+    match std::env::var("VERIF_OUT") {
+        Ok(output_path) => {
+            std::fs::write(&output_path, &harness.out).expect("VERIF_OUT should be writable");
+        }
+        Err(_) => print!("{}", harness.out),
+    }
+}
